@@ -23,7 +23,7 @@ func init() {
 	register(&Property{
 		ID:          "C19",
 		Run:         runC19,
-		Explanation: "Decides the ordering and confinement clauses of the registry install property: (R1) digest check → verification gate → finalize on the success edges, the signed/allowed tests inside the gates, and the bundle variants; (R2) closed caller tables for the install/finalize/policy/rename/state-save entry points; (R3) ExtractBinary writes only after the traversal refusal, only for regular entries, with O_EXCL and a LimitReader/total-size cap, link entries refused, into a private staging directory; (R4) VerifyIndex: lock → load → verify → rollback check → staleness check → save, saving the verified version; CheckRollback refuses fetched<high-water; (R5) atomicfile.WriteFile: temp in the target directory → write → sync → close → rename, and manifest/state are written only through it; (R6) nil verifiers refused and the fail-closed verifier never returns nil.",
+		Explanation: "Decides the ordering and confinement clauses of the registry install property: (R1) digest check → verification gate → finalize on the success edges, the signed/allowed tests inside the gates, and the bundle variants; (R2) closed caller tables for the install/finalize/policy/rename/state-save entry points; (R3) ExtractBinary writes only after the traversal refusal, only for regular entries, with O_EXCL and a LimitReader/total-size cap, link entries refused, into a private staging directory; (R4) VerifyIndex: lock → load → verify → rollback check → staleness check → save, saving the verified version; CheckRollback refuses fetched<high-water; (R5) atomicfile.WriteFile: temp in the target directory → write → sync → close → rename, and manifest/state are written only through it; (R6) nil verifiers refused and the fail-closed verifier never returns nil. Rules added later (after independent seeded changes and defect hunts) are not all enumerated here: every armed rule is listed with its description, kind and instance count under coverage.rules.",
 		NotDecided:  []string{"cryptography itself (ed25519, JCS canonicalisation, the freshness content hash); R9 decides only the role separation of the two key sets", "atomicity of rename(2) and fsync on the host file system", "behaviour under a real interruption", "flock semantics"},
 		Assumptions: []string{"os.Rename within one directory is atomic", "os.O_EXCL refuses existing paths including dangling symlinks"},
 	})
